@@ -84,6 +84,10 @@ def framing_judge(ctx, recs, tag):
 
 
 # ------------------------------------------------------------------ the real transports (loopback sockets, real event loop)
+class NoSockets(Exception):
+    pass
+
+
 def run_real(kind, stream, chunk, ending):
     """UnixFace / TcpFace connected to an in-process server that writes `stream` in chunks of `chunk` bytes and then ends the
     connection: 'eof' = orderly close, 'reset' = abort (RST / connection lost with an error) after the last chunk.
@@ -113,14 +117,17 @@ def run_real(kind, stream, chunk, ending):
             else:
                 writer.close()
         aio.get_running_loop().set_exception_handler(lambda loop, c: errs.append(c))
-        if kind == 'unix':
-            d = tempfile.mkdtemp(prefix='c06s', dir=tlc.BUILD)
-            path = os.path.join(d, 's')
-            srv = await aio.start_unix_server(serve, path)
-            face = UnixFace(path)
-        else:
-            srv = await aio.start_server(serve, '127.0.0.1', 0)
-            face = TcpFace('127.0.0.1', srv.sockets[0].getsockname()[1])
+        try:
+            if kind == 'unix':
+                d = tempfile.mkdtemp(prefix='c06s', dir=tlc.BUILD)
+                path = os.path.join(d, 's')
+                srv = await aio.start_unix_server(serve, path)
+                face = UnixFace(path)
+            else:
+                srv = await aio.start_server(serve, '127.0.0.1', 0)
+                face = TcpFace('127.0.0.1', srv.sockets[0].getsockname()[1])
+        except OSError as ex:
+            raise NoSockets(str(ex))          # the harness' own server could not be set up: environment, not library
         face.callback = cb
         await face.open()
         res = 'returned'
@@ -157,6 +164,7 @@ def run_real(kind, stream, chunk, ending):
 def real_transports(ctx):
     pk = [mk_pkt(6, 3), mk_pkt(5, 0), mk_pkt(100, 260, lform=3), mk_pkt(6, 1, tform=3), mk_pkt(0x64, 0), mk_pkt(6, 40, lform=5)]
     recs = []
+    skipped = set()
     for kind in ('unix', 'tcp'):
         for n, (seqn, cut) in enumerate([((0, 1, 2), 0), ((1, 4), 0), ((2, 0), 2), ((3, 5, 0), 5), ((), 0), ((0,), 1),
                                          ((4, 4, 1), 0), ((5, 2, 3), 130)][:ctx.pick(5, 8)]):
@@ -164,7 +172,15 @@ def real_transports(ctx):
             stream = full[:len(full) - cut] if cut else full
             for chunk in ctx.pick((1, 7, 4096), (1, 2, 7, 64, 4096)):
                 for ending in ('eof', 'reset'):
-                    rec, bad = run_real(kind, stream, chunk, ending)
+                    if kind in skipped:
+                        continue
+                    try:
+                        rec, bad = run_real(kind, stream, chunk, ending)
+                    except NoSockets as ex:
+                        ctx.note('real transports: no loopback %s sockets in this environment (%s) - stage skipped' % (kind, ex))
+                        ctx.assumptions.append('real-transport stage skipped for %s: no loopback sockets' % kind)
+                        skipped.add(kind)
+                        continue
                     ctx.traces += 1
                     ctx.evaluations += 1
                     ctx.nt(['real', kind, n, chunk, ending])
